@@ -81,6 +81,26 @@ theorem unseeded_global_is_structural (e : Entry) (d : Draw) (hd : d ∈ plan e 
   | structural => rfl
   | noise => exact absurd hg (unseeded_noise_not_global e d hd hk)
 
+/-- copying a mechanism (`.copy()`, `copy.copy`, `copy.deepcopy`, pickle) never changes where its noise comes from:
+the copy holds a generator of the same source, or no copy is obtained at all -/
+theorem copy_preserves_source (w : CopyWay) (m : Mech) (s : Seed) :
+    copySrc w (mechRng m s) = mechRng m s ∨ copySrc w (mechRng m s) = .error := by
+  cases w <;> cases m <;> cases s <;> decide
+
+/-- … hence every copy of an unseeded mechanism still draws from the OS CSPRNG (fresh Generator for Staircase /
+Bingham), and never from numpy's global generator -/
+theorem copy_unseeded_secure (w : CopyWay) (m : Mech) :
+    copySrc w (mechRng m .none) = .error ∨
+      (Draw.mk (.mech m) .noise (copySrc w (mechRng m .none))).secure = true := by
+  cases w <;> cases m <;> decide
+
+theorem copy_never_global (w : CopyWay) (m : Mech) (s : Seed) : copySrc w (mechRng m s) ≠ .globalNumpy := by
+  cases w <;> cases m <;> cases s <;> decide
+
+/-- why a copy must not RE-DERIVE its generator from `random_state` with the non-secure helper: for an unseeded
+mechanism that is numpy's global generator -/
+theorem nonsecure_rederive_is_global : crs .none false = .globalNumpy := rfl
+
 /-- non-vacuity: the plans do contain noise draws, e.g. the forest's tree labels and the quantile's uniform -/
 example : ∃ d ∈ plan .RandomForestClassifier .none, d.kind = .noise ∧ d.site = .emptyLeaf := by decide
 example : ∃ d ∈ plan .median .none, d.kind = .noise ∧ d.site = .quantileUniform ∧ d.src = .osCsprng := by decide
